@@ -144,15 +144,35 @@ func runC06(c *fw.Ctx) {
 	}
 
 	ntx := r.Range(60, 90)
+	var phantom *feeOracle // fee parameters of the last governance update that was rolled back
 	for t := 0; t < ntx && e.Halted == ""; t++ {
 		obs := e.Last
 		fo := feeOracle{obs.WrkParams, obs.BeaconParams}
-		// occasional fee parameter change through governance
-		if r.Chance(3) {
-			p := obs.WrkParams
-			p.FeeRecord = fee()
-			p.FeePurchaseStorage = fee()
-			e.Gov("wrk fees", &wrkchaintypes.MsgUpdateParams{Authority: lab.GovAuthority(), Params: p})
+		// occasional fee parameter change through governance - of either module, and sometimes in a
+		// proposal whose LATER message fails, so that x/gov discards the update: the fees in force
+		// stay the stored ones, and the discarded ones (remembered as phantom) must never be charged
+		if r.Chance(5) {
+			var upd sdk.Msg
+			ph := feeOracle{obs.WrkParams, obs.BeaconParams}
+			if r.Bool() {
+				p := obs.WrkParams
+				p.FeeRegister, p.FeeRecord, p.FeePurchaseStorage = fee(), fee(), fee()
+				upd, ph.wrk = &wrkchaintypes.MsgUpdateParams{Authority: lab.GovAuthority(), Params: p}, p
+			} else {
+				p := obs.BeaconParams
+				p.FeeRegister, p.FeeRecord, p.FeePurchaseStorage = fee(), fee(), fee()
+				upd, ph.beacon = &beacontypes.MsgUpdateParams{Authority: lab.GovAuthority(), Params: p}, p
+			}
+			if r.Chance(45) {
+				failing := banktypes.NewMsgSend(lab.ModAddr("gov"), ac[1].Addr, sdk.NewCoins(sdk.NewCoin(lab.Denom, math.NewIntWithDecimal(1, 40))))
+				e.Gov("fees + failing message (rolled back)", upd, failing)
+				phantom = &ph
+				c.Count("rolled_back_fee_updates", 1)
+			} else {
+				if e.Gov("fees", upd) {
+					c.Count("fee_updates_applied", 1)
+				}
+			}
 			continue
 		}
 		// --- message multiset
@@ -313,6 +333,13 @@ func runC06(c *fw.Ctx) {
 			offered, rel = want.Add(sdk.NewInt64Coin(lab.DenomBig, 1)), "exact"
 		default:
 			offered, rel = sdk.NewCoins(sdk.NewInt64Coin(lab.DenomBig, 5)), "missing"
+		}
+		if phantom != nil && r.Chance(30) { // what the operations would cost under the discarded parameters
+			offered, _, _ = phantom.expected(leaves)
+			rel = "rolled-back-proposal-fee"
+			if offered.IsEqual(want) {
+				rel = "exact"
+			}
 		}
 		extra := "no-extra"
 		if r.Chance(30) {
